@@ -157,11 +157,17 @@ def unit_scaling_backend(
                 # the inbuilt + operation is handled differently when traced. It is
                 # instead substituted for its unit scaled equivalent here.
                 if not is_residual_add:
-                    logger.info("unit scaling function: %s", node)
-                    # Unconstrained. Passed by keyword, as `_unconstrain_node()` may
-                    # later set the same keyword on this node
-                    kwargs = dict(node.kwargs, constraint=None)
-                    replace_node_with_function(graph, node, U.add, kwargs=kwargs)
+                    node.meta["regular_add"] = True
+
+        # Only substitute the regular adds once every add has been classified: the
+        # dependency metadata used above refers to the original nodes.
+        for node in graph.nodes:
+            if node.meta.get("regular_add", False):
+                logger.info("unit scaling function: %s", node)
+                # Unconstrained. Passed by keyword, as `_unconstrain_node()` may
+                # later set the same keyword on this node
+                kwargs = dict(node.kwargs, constraint=None)
+                replace_node_with_function(graph, node, U.add, kwargs=kwargs)
 
         # Replace nodes marked as residual-adds with unit scaled equivalent
         for node in graph.nodes:
